@@ -2,6 +2,7 @@ ID = "C07"
 LEVEL = "model_checking"
 HARNESS = "harness/c07_number.py"
 MODE = "src"
+CROSSHAIR = ["crosshair/c07_contracts.py"]       # second engine, thorough tier
 EXPLANATION = ("SMT decision over the whole documented integer domain (symbolic n in [0,253^4)) and over all byte "
                "strings of each length up to the bound; no sampling.")
 BOUNDS = {
